@@ -355,6 +355,9 @@ func (s *pState) render(cw *cwriter.Writer) (err error) {
 			close(s.iterDrop)
 			return err
 		}
+		// every row ends with a newline: the last line of the
+		// terminal is where the cursor rests after a frame
+		height--
 	} else {
 		if s.reqWidth > 0 {
 			width = s.reqWidth
